@@ -67,6 +67,8 @@ var c15Shapes = map[string][2]string{
 	// an empty tag section (a non-nil, empty tag map), and 15 parameters of which the second is a CTCP payload
 	// (the parser prepends the CTCP verb: 16 arguments)
 	"emptytags": {"@ :o!u@h PRIVMSG #c :hi", "@ :o!u@h PRIVMSG #c :again"},
+	// tags but no argument at all
+	"tagsnoargs": {"@a=b;c=d;e :o!u@h FOO", "@x=y :p!u@h FOO"},
 	"sixteen":   {":o!u@h PRIVMSG me \x01VERSION\x01 a3 a4 a5 a6 a7 a8 a9 a10 a11 a12 a13 a14 :last one", ":o!u@h PRIVMSG me \x01FINGER\x01 b3 b4 b5 b6 b7 b8 b9 b10 b11 b12 b13 b14 :last two"},
 }
 
@@ -212,7 +214,7 @@ func c15Scenario(p c15Params) *explore.Scenario {
 func init() {
 	Register(&Prop{
 		ID:   "C15",
-		Rule: "two consecutive events of each line shape {PING, tagged PRIVMSG, 0/1/2/15 arguments, CTCP, JOIN with tracking} delivered to 1-3 foreground and 0-2 background handlers (two shapes also to 10 and 17 foreground / 9 background handlers; and, for five shapes, two more handlers registered in the internal set next to the built-in ones); every handler records a deep image at entry, edits every argument, tag and field with handler-unique values, and re-reads after yielding; every execution within the deviation budgets; distinct = distinct canonical observation per scenario",
+		Rule: "two consecutive events of each line shape {PING, tagged PRIVMSG, 0/1/2/15 arguments, tags without arguments, CTCP, JOIN with tracking} delivered to 1-3 foreground and 0-2 background handlers (two shapes also to 10 and 17 foreground / 9 background handlers; and, for five shapes, two more handlers registered in the internal set next to the built-in ones); every handler records a deep image at entry, edits every argument, tag and field with handler-unique values, and re-reads after yielding; every execution within the deviation budgets; distinct = distinct canonical observation per scenario",
 		Assumptions: []string{
 			"interleavings at synchronisation/channel/socket granularity plus explicit yields inside handlers (DESIGN.md 3.8)",
 			"'equal to the parsed event' is judged against ParseLine of the wire text (C01 judges the parser itself)",
@@ -221,7 +223,7 @@ func init() {
 			var jobs []Job
 			type hc struct{ fg, bg int }
 			hcs := []hc{{1, 0}, {2, 0}, {2, 1}, {1, 2}, {3, 2}}
-			shapes := []string{"ping", "tags", "noargs", "onearg", "twoargs", "fifteen", "ctcp", "join", "emptytags", "sixteen"}
+			shapes := []string{"ping", "tags", "noargs", "onearg", "twoargs", "fifteen", "ctcp", "join", "emptytags", "sixteen", "tagsnoargs"}
 			for _, sh := range shapes {
 				for _, h := range hcs {
 					if tier != "thorough" && h.fg+h.bg >= 5 && sh != "tags" && sh != "ping" {
